@@ -326,18 +326,18 @@ def queue_suite(ctx, vh):
                   "replay_cmd": "vh acks -mode queue"}
         for which, invs in (("first", r["invs"]), ("second", r["invs2"])):
             if len(invs) > 1:
-                ok = False
                 what = ("client with Retries=%d, AckTimeout=%dms: callback of the %s queued packet ran %d times (%s) "
                         "(connection dropped %d ms after Emit, server answers after %d ms)"
                         % (r["retries"], r["timeout"], which, len(invs),
                            ["timeout" if i["to"] else "reply(%d)" % i["code"] for i in invs], r["cut_at"], r["delay"]))
                 # finding class: Retries > 0 and a reconnect (forced drain) while an attempt is still pending
-                ctx.fail_or_known("retry-queue-forced-drain" if r["retries"] > 0 and r["cut_at"] >= 0 else None, what, replay)
+                if not ctx.fail_or_known("retry-queue-forced-drain" if r["retries"] > 0 and r["cut_at"] >= 0 else None, what, replay):
+                    ok = False
         if r["cut_at"] < 0 and (len(r["invs"]) != 1 or r["invs"][0]["to"] or r["invs"][0]["code"] != 42):
             ok = False
             ctx.violation("client with Retries=%d: plain emit through the retry queue, callback got %s (expected one reply 42)"
                           % (r["retries"], r["invs"]), replay)
-    ctx.obligation("oracle:queue", "oracle", ok, "%d scenarios" % len(rows))
+    ctx.obligation("oracle:queue", "oracle", ok, "%d scenarios (failures in the listed known-finding class retry-queue-forced-drain are reported as KNOWN-FINDING, any other fails this obligation)" % len(rows))
 
 
 def run(ctx):
